@@ -265,7 +265,12 @@ def _eval_stats_in(col, case, d):
     for i, sc in enumerate(info["scales"]):
         key = sc["key"]
         sdir = os.path.join(ds, key)
-        if sharded:
+        if sharded and not (os.path.isdir(sdir) and any(
+                n.endswith(".shard") for n in os.listdir(sdir))):
+            # every command exited with status 0 and no shard file exists:
+            # nothing was written for this scale
+            actual = 0
+        elif sharded:
             sp = dict(sc["sharding"])
             rd = shard_spec.SpecReader(sdir, sp)
             try:
@@ -276,9 +281,18 @@ def _eval_stats_in(col, case, d):
         else:
             coords, _ = pipeline.list_chunk_files(sdir)
             actual = len(set(coords))
+        if key in per_scale and per_scale[key][0] != actual:
+            # the count is compared first: it needs no decoding
+            ok = False
+            col.violation("C20/scale-stats/chunk-count", case,
+                          "%d chunks written for scale %s" % (actual, key),
+                          "%d reported" % per_scale[key][0])
         try:
             nbytes = pipeline.read_scale(pio, i).nbytes
         except Exception as exc:
+            if not ok:
+                col.ev(1, 1, "stats-bad")
+                return
             # an unreadable dataset is C05/C19's business; nothing to compare
             col.ev(1, 0, "stats-dataset-unreadable/" + type(exc).__name__)
             return
@@ -290,11 +304,6 @@ def _eval_stats_in(col, case, d):
                           r.out[-600:])
             continue
         rep_chunks, rep_size = per_scale[key]
-        if rep_chunks != actual:
-            ok = False
-            col.violation("C20/scale-stats/chunk-count", case,
-                          "%d chunks written for scale %s" % (actual, key),
-                          "%d reported" % rep_chunks)
         if not _size_matches(rep_size, nbytes):
             ok = False
             col.violation("C20/scale-stats/size", case,
